@@ -129,10 +129,9 @@ func runC11(c *engine.Ctx) {
 	c.Rule = "case = (object size 0..N, Range header from the menu: every first/last/suffix value in -1..N+2 and around 2^31/2^63/2^64/10^30, whitespace variants, malformed specs, other units, multiple ranges) on every backend, compared with the arithmetic oracle and across backends; distinct_nontrivial = distinct (size, header) cases that are served as a satisfiable range"
 	c.Assumptions = append(c.Assumptions, "200 and 206 are both accepted for a served range (statement does not fix it)", "multi-range headers: 416, 501 NotImplemented or the whole object, identical on all backends", "whitespace in the spec may be trimmed (then served correctly) or rejected", "an explicit '+' sign is treated like whitespace: served as the number or rejected")
 	N := int64(8)
-	kinds := drv.MemFsKinds
+	kinds := drv.AllKinds
 	if !quick(c) {
 		N = 16
-		kinds = drv.AllKinds
 	}
 	hdrs := rangeHeaders(N)
 	c.Bounds["max_size"] = N
